@@ -70,7 +70,7 @@ def record_at_contig_start(c: dict) -> bool:
     recs = [c.get('vcf_ref'), c.get('vcf_pam')]
     return c.get('kind') in ('vcf_ref_alt', 'vcf_pam_alt', 'vcf_ref_alt_anchor', 'vcf_pam_alt_anchor', 'vcf_ref_ref_mismatch', 'vcf_pam_ref_mismatch',
                              'vcf_ref_ref_mismatch_anchor', 'vcf_pam_ref_mismatch_anchor', 'vcf_sge_ref') and \
-        any(r is not None and r['pos'] <= 2 for r in recs) and int(c['row']['mut_position']) == 3 and (not c['row']['ref'] or not c['row']['new'])
+        any(r is not None and r['pos'] <= 2 for r in recs) and int(c['row']['mut_position']) in (2, 3) and (not c['row']['ref'] or not c['row']['new'])
 
 
 MATCHERS = {'record_at_contig_start': record_at_contig_start}
